@@ -97,9 +97,25 @@ def _check_units(run, cfg, build, insts_by_id, stats):
                               "has %s [%s]" % (it.desc(), fld.split("_")[0], s[fld]["mag"], it.g, build))
 
 
+def _selftest(run):
+    """Perturb the ORACLE (not Au): with a wrong scale factor the comparison must fail."""
+    it = S.Inst(0, "12", S.lib("feet"), S.lib("inches"), "int32_t", "int32_t")
+    it.k1 += 1
+    it.ops[core.GXX14.name] = {"cmp": True, "add": True, "mod": True}
+    it.iv1 = it.iv2 = [(-3, 3)]
+    it.square8 = False
+    stats, viols = S.build_and_run(run.wd, core.GXX14, "selftest", [it], [], 0, (0, 0, 1), nsplit=1)
+    kinds = {v["kind"] for v in viols}
+    if not {"cmp-exact", "sum", "diff", "mod"} <= kinds:
+        raise core.InfraError("C08 selftest: a perturbed oracle was not noticed (kinds seen: %s)" % sorted(kinds))
+    return len(viols)
+
+
 def check(run):
     tier = run.tier
     quick = tier == "quick"
+    if getattr(run, "selftest", False):
+        run.cov["selftest_perturbed_oracle_mismatches"] = _selftest(run)
     insts = S.instances(tier)
     probe_cfgs = core.CORNERS if quick else core.CFG6
     mism, nacc, nrej = _probe(run, insts, probe_cfgs)
